@@ -1,4 +1,4 @@
-\* repaired protocol, update channel scaled to 2 slots, 2 connections x 2 callers, heads 0..2
+\* repaired protocol = the code as it is now (all Fix* = TRUE), update channel scaled to 2 slots, 2 connections x 2 callers, heads 0..2
 CONSTANTS
   NC = 2
   Waiters = {w1, w2}
